@@ -1,4 +1,51 @@
-From Coq Require Import List ZArith.
-From TskVerif Require Import C13.Model.
-Theorem c13_placeholder_thm : c13_placeholder = 0%Z.
-Proof. reflexivity. Qed.
+(* Property C13 — statements only.  Each theorem is closed by [exact] of a lemma proved in
+   the C13/ files; Print Assumptions is evaluated by ./check on every run.
+   [abs : tbl -> list row] is the list of rows a columnar table stands for, [WF d t] the
+   executable invariant (equal column lengths; offsets start at 0, are monotone and end at
+   the data length; everything inside its allocation) — both defined in C13/Model.v. *)
+From Coq Require Import List ZArith Bool.
+From TskVerif Require Import Base.Common C13.Model C13.Rep C13.RefineProofs.
+Import ListNotations.
+Open Scope Z_scope.
+
+(* the invariant is exactly "the columns encode abs t" *)
+Theorem c13_wf_iff_represents : forall d t, WF d t <-> TRep d t (abs t).
+Proof. exact Bridge.WF_iff_rep. Qed.
+
+Theorem c13_add_row : forall d t r t',
+  WF d t -> row_ok d r = true -> add_row d t r = Ok t' ->
+  WF d t' /\ abs t' = abs t ++ [r].
+Proof. exact add_row_refines. Qed.
+
+Theorem c13_truncate : forall d t m t',
+  WF d t -> truncate t m = Ok t' -> WF d t' /\ abs t' = firstn (Z.to_nat m) (abs t).
+Proof. exact truncate_refines. Qed.
+
+Theorem c13_truncate_out_of_range : forall t m,
+  m < 0 \/ nrows t < m -> truncate t m = Err TSK_ERR_BAD_TABLE_POSITION.
+Proof. exact truncate_out_of_range. Qed.
+
+Theorem c13_clear : forall d t t', WF d t -> clear t = Ok t' -> WF d t' /\ abs t' = [].
+Proof. exact clear_refines. Qed.
+
+Theorem c13_get_row : forall d t i,
+  WF d t -> 0 <= i < nrows t -> get_row d t i = Ok (nth (Z.to_nat i) (abs t) row0).
+Proof. exact get_row_refines. Qed.
+
+Theorem c13_get_row_out_of_range : forall d t i,
+  i < 0 \/ nrows t <= i -> get_row d t i = Err (td_oob d).
+Proof. exact get_row_out_of_range. Qed.
+
+Theorem c13_extend : forall d t u idx t' st,
+  WF d t -> WF d u -> extend d t u idx = (t', st) ->
+  WF d t' /\
+  exists k, (k <= length idx)%nat /\
+    abs t' = abs t ++ rows_at (abs u) (firstn k idx) /\
+    Forall (fun i => 0 <= i < nrows u) (firstn k idx) /\
+    (st = Ok tt -> k = length idx).
+Proof. exact extend_refines. Qed.
+
+Theorem c13_extend_bad_index : forall d t u idx t' st,
+  WF d t -> WF d u -> extend d t u idx = (t', st) ->
+  Exists (fun i => i < 0 \/ nrows u <= i) idx -> st <> Ok tt.
+Proof. exact extend_bad_index. Qed.
